@@ -226,14 +226,14 @@ def norm_graph(r):
 class C23(Prop):
     id = 'C23'
     title = 'Batch processing does not depend on the letter case of names'
-    model_modules = ['LokiModel.C23.Model']
+    model_modules = ['LokiModel.C23.Model', 'LokiModel.Generated.C23Tables']
     props_module = 'LokiModel.Props.C23'
     findings_module = 'LokiModel.Findings.C23'
     driver = 'Drivers/C23.lean'
     theorems = ['C23_config_recase_invariant', 'C23_recase_invariant', 'C23_populate_recase_invariant',
                 'C23_recase_invariant_norm', 'C23_order_recase_invariant', 'C23_folding_needed',
                 'C23_eq_hash_partial', 'C23_eq_hash_fixed', 'C23_set_mem_partial', 'C23_set_no_case_duplicates',
-                'C23_dup_keys_module', 'C23_dup_keys_partial']
+                'C23_dup_keys_module', 'C23_dup_keys_partial', 'C23_eq_hash_current', 'C23_tables']
     design_ref = 'DESIGN.md 4.D C23'
     level = 'proof'
     level_text = ('Theorems (Lean kernel; every project abstraction, configuration, seed list and every re-casing pi, i.e. any name map '
@@ -275,9 +275,49 @@ class C23(Prop):
                          'oracle: DuplicateKernel with lower-cased suffix options yields the same item names',
                          'oracle: == of items implies equal hash and single set/dict entry']
 
+    def tables(self):
+        """lower-casing points read from the sources with ast: every `item_name = …` of item_factory.py (is the value
+        `.lower()`-ed?), the two names built in FileItem.create_definition_items, and whether Item.__hash__ folds"""
+        import ast
+        from ..core import REPO
+        rows = []
+        tree = ast.parse((REPO / 'loki/batch/item_factory.py').read_text())
+        for fn in ast.walk(tree):
+            if isinstance(fn, ast.FunctionDef):
+                for st in ast.walk(fn):
+                    if isinstance(st, ast.Assign) and len(st.targets) == 1 and getattr(st.targets[0], 'id', None) == 'item_name':
+                        v = st.value
+                        rows.append((fn.name, isinstance(v, ast.Call) and getattr(v.func, 'attr', None) == 'lower'))
+        itree = ast.parse((REPO / 'loki/batch/item.py').read_text())
+        hash_folds = False
+        for cls in ast.walk(itree):
+            if isinstance(cls, ast.ClassDef) and cls.name == 'FileItem':
+                for fn in cls.body:
+                    if isinstance(fn, ast.FunctionDef) and fn.name == 'create_definition_items':
+                        for c in ast.walk(fn):
+                            if isinstance(c, ast.Call) and getattr(c.func, 'attr', None) == 'get_or_create_item':
+                                rows.append(('FileItem.create_definition_items', '.lower()' in ast.unparse(c.args[1])))
+            if isinstance(cls, ast.ClassDef) and cls.name == 'Item':
+                for fn in cls.body:
+                    if isinstance(fn, ast.FunctionDef) and fn.name == '__hash__':
+                        hash_folds = '.lower()' in ast.unparse(fn)
+        rows.sort()
+
+        def lb(b):
+            return 'true' if b else 'false'
+        body = ',\n  '.join(f'("{a}", {lb(b)})' for a, b in rows)
+        text = ('/-! generated from /repo by harness/props/c23.py (tables) — do not edit -/\n'
+                'namespace LokiModel.C23.Generated\n\n'
+                '/-- (function, is the constructed item name lower-cased?) for every place the item factory builds an item name -/\n'
+                f'def itemNameFolded : List (String × Bool) := [\n  {body}]\n\n'
+                '/-- does `Item.__hash__` hash the lower-cased name? -/\n'
+                f'def hashFoldsName : Bool := {lb(hash_folds)}\n\n'
+                'end LokiModel.C23.Generated\n')
+        return {'LokiModel/Generated/C23Tables.lean': text}
+
     # ---- generation
     def gen(self, rng, tier):
-        nproj = {'quick': 14, 'thorough': 220, 'search': 60}.get(tier, 14)
+        nproj = {'quick': 14, 'thorough': 150, 'search': 50}.get(tier, 14)
         for p in range(nproj):
             proj, names, place, modnames = c21.gen_project(rng, rng.randint(3, 12), collide=False)
             absx = export_abs(project_dir(proj))
@@ -303,7 +343,7 @@ class C23(Prop):
                 req = [A('dup'), [A('proj')] + proj[1:], [A('seeds')] + seeds, [A('kernel'), c21.spell(rng, k)],
                        [A('suffix'), suffix], [A('msuffix'), msuffix], absx]
                 yield Case(req, stream='dup')
-        nitem = {'quick': 200, 'thorough': 3000, 'search': 1000}.get(tier, 200)
+        nitem = {'quick': 300, 'thorough': 3000, 'search': 1000}.get(tier, 300)
         for _ in range(nitem):
             a = c21.gen_match(rng)[1]
             r = rng.random()
@@ -361,13 +401,13 @@ class C23(Prop):
             return out
         if op == 'dup':
             r = dup_result(req)
-            low = [A('dup')] + [([e[0], str(e[1]).lower()] if head(e) in ('suffix', 'msuffix') else e) for e in req[1:]]
+            low = [A('dup')] + [([e[0], str(e[1]).lower()] if head(e) in ('suffix', 'msuffix', 'kernel') else e) for e in req[1:]]
             rl = dup_result(low)
             n1 = ('error', r[1]) if r[0] == 'error' else ('ok', sorted(x.lower() for x in r[1]))
             n2 = ('error', rl[1]) if rl[0] == 'error' else ('ok', sorted(x.lower() for x in rl[1]))
             if n1 != n2:
                 return [Failure(f'DuplicateKernel({field(req, "kernel")[1]!r}, suffix={field(req, "suffix")[1]!r}, '
-                                f'module_suffix={field(req, "msuffix")[1]!r}) gives {n1}; with lower-cased suffixes {n2}',
+                                f'module_suffix={field(req, "msuffix")[1]!r}) gives {n1}; with lower-cased kernel name and suffixes {n2}',
                                 self.dup_class(req))]
             return []
         if op == 'twin':
